@@ -171,7 +171,7 @@ def iter_components(e):
     if e[0] == "call":
         nm = e[1].rsplit("::", 1)[-1]
         a = e[2]
-        if nm in ("into_iter", "rev", "enumerate", "by_ref") and a:
+        if nm in ("into_iter", "rev", "enumerate", "by_ref", "copied", "cloned") and a:
             return iter_components(a[0])
         if nm == "zip" and len(a) == 2:
             x, y = iter_components(a[0]), iter_components(a[1])
